@@ -208,6 +208,12 @@ NotFreeWhileUsed(t, pools) ==
   /\ UsedPeerIds(t) \subseteq pools.peerOut
   /\ UsedAppIds(t) \subseteq pools.appIdOut
 NoDuplicatesInPools(pools) == pools.peerDup = {} /\ pools.appIdDup = {}
+\* identifiers do not migrate between the two meter pools (nor leave them for good): the cells out of a pool are exactly
+\* the cells the plug-in records for the meters of that pool's kind (recs: [type (1 application, 2 session), ul, dl])
+CellsOfKind(recs, k) == UNION {{m.ul, m.dl} : m \in {x \in recs : x.type = k}}
+MeterCellsInOwnPool(pools, recs) ==
+  /\ pools.appCellOut = CellsOfKind(recs, 1)
+  /\ pools.sessCellOut = CellsOfKind(recs, 2)
 NoPools == [ctrOut |-> {}, appCellOut |-> {}, sessCellOut |-> {}, peerOut |-> {}, peerDup |-> {}, appIdOut |-> {}, appIdDup |-> {}]
 \* a tunnel peer ID that a sessions entry refers to is allocated and has its tunnel_peers entry (0 = none, 1 = dbuf)
 ReferencedPeerIds(t) == {e.peer : e \in {x \in t.sessDL : x.act = "fwd" /\ x.peer > 1}}
